@@ -88,6 +88,8 @@ def run_path(unit, src, cs, fdef, prefix, define=False):
   env = Env(src, cs, qualname=contract.fn_qualname)
   values = {}
   params = [a.arg for a in fdef.args.args]
+  if fdef.args.vararg is not None:
+    params.append(fdef.args.vararg.arg)     # *args: one opaque tuple
   if fdef.args.kwarg is not None:
     params.append(fdef.args.kwarg.arg)      # **kwargs: one opaque mapping
   is_static = cs is not None and fdef.name in cs.static
